@@ -1,13 +1,13 @@
 package exec
 
 import (
-	"os"
-	"time"
 	"fmt"
 	"go/token"
 	"go/types"
+	"os"
 	"sort"
 	"strings"
+	"time"
 
 	"gosmt/sym"
 
@@ -920,6 +920,7 @@ func (m *Machine) orderCands(cands []*Cand) {
 	if fair == 0 {
 		fair = 10
 	}
+	slow := strings.Contains(m.Policy, "slowclock")
 	pr := func(cd *Cand) int {
 		r := rank(cd.A.it)
 		since := cd.A.it.Since
@@ -931,7 +932,14 @@ func (m *Machine) orderCands(cands []*Cand) {
 				since = cd.B.it.Since // enabled since both parties are parked
 			}
 		}
-		// fairness: a move that has been enabled for a long time goes first (oldest first)
+		// fairness: a move that has been enabled for a long time goes first (oldest first);
+		// under a "slowclock" policy time only passes when nothing else can move
+		isTick := func(it *Item) bool {
+			return it != nil && it.Gor != nil && strings.HasPrefix(it.Gor.Name, "vmNewTicker")
+		}
+		if slow && (isTick(cd.A.it) || isTick(cd.B.it)) {
+			return r
+		}
 		if age := m.step - since; age > fair {
 			return -(1 << 40) - age
 		}
@@ -966,7 +974,20 @@ func (m *Machine) orderCands(cands []*Cand) {
 			}
 			return m.lastChosen[m.choiceKey(x, cd)]
 		}
-		sort.SliceStable(sub, func(a, b int) bool { return arrival(sub[a]) < arrival(sub[b]) })
+		lifo := strings.HasSuffix(m.Policy, "lifo")
+		if lifo {
+			// newest arrival first, unless some alternative has been waiting longer than the fairness bound
+			for _, cd := range sub {
+				if m.step-arrival(cd) > fair {
+					lifo = false
+				}
+			}
+		}
+		if lifo {
+			sort.SliceStable(sub, func(a, b int) bool { return arrival(sub[a]) > arrival(sub[b]) })
+		} else {
+			sort.SliceStable(sub, func(a, b int) bool { return arrival(sub[a]) < arrival(sub[b]) })
+		}
 		for k, i := range idxs {
 			cands[i] = sub[k]
 		}
